@@ -10,15 +10,17 @@ from typing import Optional, Union, List, Dict
 from dateutil.parser import parse
 
 
-def _get_story_offsets(all_stories: Optional[List[Element]]) -> Optional[Dict[str, float]]:
+def _get_story_offsets(all_stories: Optional[List[Element]]) -> Optional[Dict[Element, float]]:
     """
-    Create a dict of {story_id: story_offset}
+    Create a dict of {story_element: story_offset}. Keyed by the story element
+    itself rather than by story ID: IDs are not guaranteed to be unique within
+    a running order, and two stories must not share one offset.
     """
     story_offsets = {}
     if all_stories:
         t = 0
         for story in all_stories:
-            story_offsets[story.find('storyID').text] = t
+            story_offsets[story] = t
             duration = _get_story_duration(story)
             # the offset of whatever follows a story of unknown duration is unknown
             t = t + duration if t is not None and duration is not None else None
@@ -265,7 +267,7 @@ class Story(MosElement):
         The time offset of the story in seconds (if available in the XML)
         """
         try:
-            return self._story_offsets.get(self.id)
+            return self._story_offsets.get(self.xml)
         except AttributeError:
             return
 
